@@ -20,14 +20,16 @@ TECHNIQUE = 'whole-library LLVM-IR effect analysis (global-store and pointer-der
 CLAIM = ('Decides statically, on every run, the structural necessary conditions of race freedom: no write to non-thread-local global state outside '
          'static initialisation anywhere in the library (every function, every template instantiation, including paths no test executes), '
          'no write through cache/dataset-derived pointers on the per-thread call graphs, dataset-init ranges confined to the request. '
-         'It does not observe schedules; a violation of these conditions is a race for some schedule, their absence is the design argument the code relies on.')
+         'It does not observe schedules; a violation of these conditions is a race for some schedule, their absence is the design argument the code relies on.'
+         ' DS-RANGE-EVAL decides the confinement of dataset-init writes on the evaluated slice when the affine proof does not apply to a restructured function.')
 LEVEL_NOTE = ('Trusted: clang 14 lowering of the real build flags; type-based resolution of indirect calls; JIT-emitted code and hand-written '
               'assembly only read shared data (constants cross-checked, effects not analysed); libc/libstdc++ internals.')
 EXPLANATION = ('Whole-library LLVM-IR effect analysis (every function of every unit of the host build, all template instantiations) '
                'for writes to process-global state and for writes through pointers derived from the shared cache/dataset objects, '
                'plus interval reasoning on the item ranges of randomx_init_dataset and a scan of the assembled dataset-init routine. '
                'Decides the structural necessary conditions of race freedom; it does not observe executions, and it trusts that '
-               'JIT-emitted code and libc only read the shared data.')
+               'JIT-emitted code and libc only read the shared data.'
+               ' DS-RANGE-EVAL.')
 
 
 def is_init_fn(name):
